@@ -133,6 +133,13 @@ type world struct {
 	gone      bool
 	everGone  bool
 	startGone bool
+	// values that use the reference syntax ${name} (gen.go)
+	refs     int             // refsNone | refsLoadable | refsAny
+	refPlain bool            // the values references stand for must be ones the plain `k=v` writer can carry
+	refd     map[string]bool // names some value ever referred to: no Env event touches them
+	envEver  map[string]bool // names the history's Env events (or its initial draw) ever set: never referred to
+	nrefs    int
+	nbad     int
 }
 
 func newWorld(c *core.Ctx, t *core.Trace, r *rand.Rand) *world {
@@ -141,10 +148,17 @@ func newWorld(c *core.Ctx, t *core.Trace, r *rand.Rand) *world {
 		panic(err)
 	}
 	return &world{c: c, t: t, r: r, dir: dir, home: dir, layout: "plain", path: filepath.Join(dir, "whatap.conf"), seen: map[string][]string{}, eol: "\n", final: true,
-		env: map[string]string{}}
+		env: map[string]string{}, refd: map[string]bool{}, envEver: map[string]bool{}}
 }
 
+var refStats struct{ histories, values, unloadable int }
+
 func (w *world) done() {
+	if w.nrefs > 0 {
+		refStats.histories++
+		refStats.values += w.nrefs
+		refStats.unloadable += w.nbad
+	}
 	for k := range w.env {
 		os.Unsetenv(k)
 	}
@@ -177,11 +191,11 @@ func (w *world) envName() string {
 		default:
 			k = plainKey(r)
 		}
-		if usableKey(k) && !strings.ContainsAny(k, "=\x00") {
+		if usableKey(k) && !strings.ContainsAny(k, "=\x00") && !w.refd[k] {
 			return k
 		}
 	}
-	return "absent_key"
+	return "absent_key_env"
 }
 
 func envValue(r *rand.Rand) string {
@@ -217,6 +231,7 @@ func (w *world) putenv(k, v string) {
 	if _, ok := w.env[k]; !ok {
 		w.envKeys = append(w.envKeys, k)
 	}
+	w.envEver[k] = true
 	w.env[k] = v
 }
 
@@ -464,6 +479,9 @@ func (w *world) takeNotes() []interface{} {
 }
 
 func (w *world) edit() {
+	if w.refs == refsLoadable {
+		w.settle(-1)
+	}
 	data := w.writeFile()
 	w.gone = false
 	w.t.Emit(core.Ev{"ev": "Edit", "lines": linesEv(w.lines), "parsed": linesEv(parseProps(data)), "mt": []int{w.sec, w.ms}})
@@ -534,6 +552,19 @@ func (w *world) hashTable(k, def, deli string, java bool) []interface{} {
 	}
 	if v, ok := defaultsMap()[k]; ok {
 		add(v)
+	}
+	// a value that uses references: the tokens of what it stands for (the table is only an oracle
+	// of the hash function: token -> hash; the specification decides which tokens matter)
+	m := rawMap(w.lines)
+	for _, raw := range w.seen[k] {
+		if strings.Contains(raw, "${") {
+			if x, ok := goExpand(raw, []string{k}, m, w.env); ok {
+				add(x)
+			}
+		}
+	}
+	if w.conf != nil && w.refs != refsNone {
+		add(w.conf.GetValue(k))
 	}
 	return out
 }
@@ -684,13 +715,57 @@ func (w *world) randLine(exoticKeys bool, forms []int, plainVals bool) (Line, in
 			break
 		}
 	}
-	var v string
-	if plainVals {
-		v = plainValue(r)
-	} else {
-		v, _ = anyValue(r)
+	v, isRef := w.drawValue(plainVals, k)
+	f := w.fixForm(forms[r.Intn(len(forms))], v)
+	if isRef && w.refs == refsLoadable {
+		f = fEq
 	}
-	return Line{T: "kv", K: []byte(k), V: []byte(v)}, w.fixForm(forms[r.Intn(len(forms))], v)
+	return Line{T: "kv", K: []byte(k), V: []byte(v)}, f
+}
+
+// drawValue: a value of a random class, one time in five one that uses the reference syntax
+func (w *world) drawValue(plainVals bool, k string) (string, bool) {
+	if w.refs != refsNone && w.r.Intn(5) == 0 && (w.refs == refsAny || simpleKey(k)) {
+		w.nrefs++
+		w.sig = append(w.sig, "ref")
+		return w.refValue(k), true
+	}
+	if plainVals {
+		return plainValue(w.r), false
+	}
+	v, _ := anyValue(w.r)
+	return v, false
+}
+
+// settle: a history that wants only files the parser accepts (or this time does) takes a value
+// that makes the file unloadable back
+func (w *world) settle(i int) {
+	if w.refs == refsNone || w.loadable() {
+		return
+	}
+	if w.refs == refsAny && w.r.Intn(3) == 0 {
+		w.nbad++
+		w.sig = append(w.sig, "unloadable")
+		return
+	}
+	for _, i := range append([]int{i}, w.kvIndexes()...) {
+		if i >= 0 && i < len(w.lines) && w.lines[i].T == "kv" && strings.Contains(string(w.lines[i].V), "${") {
+			w.lines[i].V = []byte("x")
+			if w.loadable() {
+				return
+			}
+		}
+	}
+}
+
+func (w *world) kvIndexes() []int {
+	var out []int
+	for i, l := range w.lines {
+		if l.T == "kv" {
+			out = append(out, i)
+		}
+	}
+	return out
 }
 
 // fixForm avoids forms that cannot carry the value (a blank-only separator before '=' or ':',
@@ -721,14 +796,13 @@ func (w *world) mutate(exoticKeys bool, forms []int, plainVals bool, allowDup bo
 	switch {
 	case op < 4 && len(kvIdx) > 0: // change a value
 		i := kvIdx[r.Intn(len(kvIdx))]
-		var v string
-		if plainVals {
-			v = plainValue(r)
-		} else {
-			v, _ = anyValue(r)
-		}
+		v, isRef := w.drawValue(plainVals, string(w.lines[i].K))
 		w.lines[i].V = []byte(v)
 		w.forms[i] = w.fixForm(w.forms[i], v)
+		if isRef && w.refs == refsLoadable {
+			w.forms[i] = fEq
+		}
+		w.settle(i)
 		return "set"
 	case op == 4 && len(kvIdx) > 0: // empty a value
 		i := kvIdx[r.Intn(len(kvIdx))]
@@ -744,15 +818,17 @@ func (w *world) mutate(exoticKeys bool, forms []int, plainVals bool, allowDup bo
 		return "del"
 	case op == 6 && allowDup && len(kvIdx) > 0: // the same key once more, later in the file
 		i := kvIdx[r.Intn(len(kvIdx))]
-		v, _ := anyValue(r)
+		v, _ := w.drawValue(false, string(w.lines[i].K))
 		w.lines = append(w.lines, Line{T: "kv", K: append([]byte(nil), w.lines[i].K...), V: []byte(v)})
 		w.forms = append(w.forms, w.fixForm(forms[r.Intn(len(forms))], v))
+		w.settle(len(w.lines) - 1)
 		return "dup"
 	default: // insert a line
 		ln, f := w.randLine(exoticKeys, forms, plainVals)
 		i := r.Intn(len(w.lines) + 1)
 		w.lines = append(w.lines[:i], append([]Line{ln}, w.lines[i:]...)...)
 		w.forms = append(w.forms[:i], append([]int{f}, w.forms[i:]...)...)
+		w.settle(i)
 		return "ins"
 	}
 }
@@ -763,6 +839,7 @@ func (w *world) initialFile(n int, exoticKeys bool, forms []int, plainVals bool)
 		ln, f := w.randLine(exoticKeys, forms, plainVals)
 		w.lines = append(w.lines, ln)
 		w.forms = append(w.forms, f)
+		w.settle(i)
 	}
 }
 
@@ -777,6 +854,11 @@ func histEdit(c *core.Ctx, t *core.Trace, gen string, cas int) {
 		w.eol = "\r\n"
 	}
 	w.final = r.Intn(5) != 0
+	if r.Intn(4) > 0 {
+		// values that refer to other keys and to the environment, files the parser rejects
+		w.refs = refsAny
+		w.fixEnv()
+	}
 	w.initialFile(1+r.Intn(5), true, allForms, false)
 	w.sec, w.ms = r.Intn(5), r.Intn(1000)
 	w.drawEnv()
@@ -910,6 +992,10 @@ func histWb(c *core.Ctx, t *core.Trace, gen string, cas int, md wbMode) {
 	if r.Intn(8) == 0 {
 		w.eol = "\r\n"
 	}
+	if r.Intn(2) == 0 {
+		w.refs, w.refPlain = refsLoadable, md.plainVals
+		w.fixEnv()
+	}
 	w.initialFile(2+r.Intn(5), md.exoticKeys, md.forms, md.plainVals)
 	pre := []string{"", "", "whatap.", "app_"}[r.Intn(4)]
 	suf := []string{"", "", "", ".go"}[r.Intn(4)]
@@ -1015,8 +1101,11 @@ func Run(c *core.Ctx) error {
 		os.Unsetenv(e)
 	}
 	inherited() // the environment this process was given, before any history sets a variable
-	c.Rule = "histories of external edits (7 line forms of the properties syntax, 11 value classes, several edits per second), the file deleted / renamed away / its link left dangling and created again, reloads, 11 getter kinds with defaults, environment variables named like keys that are absent, present and present-but-empty in the file (set, changed, unset during the history), observer registries written during the history (Add under new and taken names, one object under several names), write-backs with prefix/suffix/exclusions; reloads taken apart at the parser and at the observers with edits, getters and write-backs between their steps (gen ilv: non-trivial if an edit or write-back fell inside a reload); the configuration file reached through 7 (in-process) / 12 (strace) layouts of links, relative paths and environment variables; the write-back's system calls under strace; 8 readers against the reloading goroutine; a history is non-trivial if it has an edit followed by a reload or a write-back; distinct by its layout and sequence of step kinds"
+	c.Rule = "histories of external edits (7 line forms of the properties syntax, 11 value classes, values with ${name} references to other keys / environment variables / undefined names / themselves incl. files the parser rejects, several edits per second), the file deleted / renamed away / its link left dangling and created again, reloads, 11 getter kinds with defaults, environment variables named like keys that are absent, present and present-but-empty in the file (set, changed, unset during the history), observer registries written during the history (Add under new and taken names, one object under several names), write-backs with prefix/suffix/exclusions; reloads taken apart at the parser and at the observers with edits, getters and write-backs between their steps (gen ilv: non-trivial if an edit or write-back fell inside a reload); the configuration file reached through 7 (in-process) / 12 (strace) layouts of links, relative paths and environment variables; the write-back's system calls under strace; 8 readers against the reloading goroutine; a history is non-trivial if it has an edit followed by a reload or a write-back; distinct by its layout and sequence of step kinds"
 	t := c.Trace("c18_conf", "Trace_FileConfig")
+	// (a second and third file of the same kind: the runner validates trace files side by side)
+	twb := c.Trace("c18_conf_wb", "Trace_FileConfig")
+	tilv := c.Trace("c18_conf_ilv", "Trace_FileConfig")
 	tf := c.Trace("c18_fs", "Trace_FsWrite")
 
 	if c.WantGen("edit") {
@@ -1038,7 +1127,7 @@ func Run(c *core.Ctx) error {
 		n := c.Pick(200, 1000)
 		for cas := 0; cas < n; cas++ {
 			if c.Want("wb", cas) {
-				histWb(c, t, "wb", cas, md)
+				histWb(c, twb, "wb", cas, md)
 			}
 		}
 	}
@@ -1069,7 +1158,7 @@ func Run(c *core.Ctx) error {
 		n := c.Pick(120, 800)
 		for cas := 0; cas < n; cas++ {
 			if c.Want("ilv", cas) {
-				histIlv(c, t, "ilv", cas, md)
+				histIlv(c, tilv, "ilv", cas, md)
 			}
 		}
 	}
@@ -1088,6 +1177,9 @@ func Run(c *core.Ctx) error {
 			return err
 		}
 	}
+	c.SetExtra("histories_with_reference_values", refStats.histories)
+	c.SetExtra("reference_values_generated", refStats.values)
+	c.SetExtra("edits_the_parser_rejects", refStats.unloadable)
 	return nil
 }
 
